@@ -289,8 +289,62 @@ def grep_gate():
                 txt = strip_coq_comments(open(p).read())
                 for m in FORBIDDEN.finditer(txt):
                     bad.append(f"{os.path.relpath(p, COQ_DIR)}: {m.group(0)}")
-    # hypotheses / variables outside sections are checked by Print Assumptions (they would show up there)
+                bad += [f"{os.path.relpath(p, COQ_DIR)}: {b}" for b in unsectioned_assumptions(txt)]
     return bad
+
+
+_SECT = re.compile(r"^[ \t]*(Section|Module\s+Type|Module|End|Hypothesis|Hypotheses|Variable|Variables|Context)\b([^.]*)\.",
+                   re.M)
+
+
+def unsectioned_assumptions(txt):
+    """`Variable` / `Hypothesis` / `Context` sentences that are not inside a Section declare an axiom."""
+    bad, stack = [], []
+    for m in _SECT.finditer(txt):
+        kw, rest = m.group(1), m.group(2)
+        if kw == "Section":
+            stack.append("S")
+        elif kw.startswith("Module"):
+            if ":=" not in rest:
+                stack.append("M")
+        elif kw == "End":
+            if stack:
+                stack.pop()
+        elif "S" not in stack:
+            bad.append(f"{kw} outside a Section: {(kw + rest)[:80]}")
+    return bad
+
+
+# Axioms the standard library itself declares and this development is allowed to rest on (each is named in
+# DESIGN.md section 8).  Anything else reported by Print Assumptions or coqchk -o fails the gate.
+ALLOWED_AXIOMS = {
+    "Classical_Prop.classic",
+    "FunctionalExtensionality.functional_extensionality_dep",
+    "ClassicalDedekindReals.sig_forall_dec",
+    "ClassicalDedekindReals.sig_not_dec",
+}
+
+
+def axiom_allowed(name):
+    n = name.strip()
+    for pre in ("Coq.Logic.", "Coq.Reals.", "Coq."):
+        if n.startswith(pre):
+            n = n[len(pre):]
+            break
+    return n in ALLOWED_AXIOMS or any(n.endswith("." + a) or a.endswith("." + n) for a in ALLOWED_AXIOMS)
+
+
+def model_sources_digest():
+    """sha256 over every .v file of the development plus the OCaml driver: what the model binary is made from."""
+    h = hashlib.sha256()
+    files = []
+    for root, _, fs in os.walk(os.path.join(COQ_DIR, "theories")):
+        files += [os.path.join(root, f) for f in fs if f.endswith(".v")]
+    files += [os.path.join(VERIF, "ocaml", f) for f in ("driver.ml", "entries.ml", "build.sh")]
+    for f in sorted(files):
+        h.update(os.path.relpath(f, VERIF).encode())
+        h.update(open(f, "rb").read())
+    return h.hexdigest()
 
 
 def coq_gate(prop_id, full=False, chk=False):
@@ -330,6 +384,18 @@ def coq_gate(prop_id, full=False, chk=False):
             if b.returncode != 0:
                 res["ok"] = False
                 res["errors"].append("re-extraction after a constant change failed: " + (b.stdout + b.stderr)[-800:])
+        # the extracted model binary must come from the .v files as they are now (stamp written by ocaml/build.sh)
+        if m.returncode == 0 and res["ok"]:
+            stamp = os.path.join(VERIF, "ocaml", "samodel.stamp")
+            want = model_sources_digest()
+            have = open(stamp).read().strip() if os.path.exists(stamp) else ""
+            res["model_binary"] = "current"
+            if want != have or not os.path.exists(MODEL_BIN):
+                b = subprocess.run(["bash", os.path.join(VERIF, "ocaml", "build.sh")], capture_output=True, text=True)
+                res["model_binary"] = "re-extracted (sources changed since the last extraction)"
+                if b.returncode != 0:
+                    res["ok"] = False
+                    res["errors"].append("re-extraction failed: " + (b.stdout + b.stderr)[-800:])
         pf = os.path.join(COQ_DIR, "theories", "Props", f"{prop_id}.v")
         if os.path.exists(pf) and m.returncode == 0:
             txt = strip_coq_comments(open(pf).read())
@@ -350,6 +416,18 @@ def coq_gate(prop_id, full=False, chk=False):
                             ax.add(mm.group(1))
                 res["assumptions"] = sorted(ax)
                 res["closed_count"] = c.stdout.count("Closed under the global context")
+                res["print_assumptions"] = c.stdout.count("Closed under the global context") + \
+                    len(re.findall(r"^Axioms:", c.stdout, re.M))
+                for a in sorted(ax):
+                    if not axiom_allowed(a):
+                        res["ok"] = False
+                        res["errors"].append(f"Print Assumptions reports an axiom outside the allowlist: {a}")
+                # every named statement of the property file must be followed by its own Print Assumptions
+                printed = set(re.findall(r"Print\s+Assumptions\s+(\w+)", txt))
+                missing = [t[1] for t in thms if t[0] != "Example" and t[1] not in printed]
+                if missing:
+                    res["ok"] = False
+                    res["errors"].append("statements without Print Assumptions: " + ", ".join(missing))
         elif not os.path.exists(pf):
             res["ok"] = False
             res["errors"].append(f"no property file Props/{prop_id}.v")
@@ -369,6 +447,10 @@ def coq_gate(prop_id, full=False, chk=False):
                 sec = sec[:sec.find("* Constants/Inductives relying on type-in-type")] if sec else ""
                 axs = [ln.strip() for ln in sec.splitlines()[1:] if ln.strip() and ln.strip() != "<none>"]
                 res["coqchk"]["axioms"] = axs
+                for a in axs:
+                    if not axiom_allowed(a):
+                        res["ok"] = False
+                        res["errors"].append(f"coqchk -o reports an axiom outside the allowlist: {a}")
                 for key, lab in (("type-in-type", "type-in-type"), ("unsafe (co)fixpoints", "unsafe fixpoints"),
                                  ("positivity is assumed", "assumed positivity")):
                     i = out.find(key)
